@@ -1,5 +1,5 @@
 """suite `keys` (C09 C10 C11, parts of C17 C18): explore / replay / search"""
-import os, sys, json, time, inspect, functools, collections, traceback
+import re, os, sys, json, time, inspect, functools, collections, traceback
 from multiprocessing import Pool
 from common import *
 import suite_keys as sk
@@ -103,6 +103,17 @@ def run_program(tier, idx, prog=None, plan=None, seed=None):
             if plan is None: group = [('base', args, kw)]
             for a2, k2 in (sk.respell(r, f, args, kw, inst_first)[:3] if (sig is not None and plan is None) else []):
                 group.append(('respell', a2, k2))
+            sameobj = False
+            # equal values as ONE object vs as two distinct objects (a key must depend on values, not on object identity)
+            if plan is None and sig is not None and len(args) >= (3 if inst_first else 2) and not kw and r.random() < 0.3:
+                v = r.choice(['shared-%d' % idx, ('t', idx)])
+                v2 = ''.join(list(v)) if isinstance(v, str) else tuple(list(v))
+                i0 = 1 if inst_first else 0
+                a_same = list(args); a_same[i0] = v; a_same[i0 + 1] = v
+                a_dist = list(args); a_dist[i0] = v; a_dist[i0 + 1] = v2
+                group = [('base', a_same, dict(kw)), ('respell', a_dist, dict(kw))]
+                args = a_same
+                tags['same-object-pair'] += 1; sameobj = True
             valid = True
             sel0 = selected(prog, ign, inst_first)
             try: sk.full_bind(f, args, kw); ba0 = sk.sbind(sig, args, kw)
@@ -286,7 +297,11 @@ def run_program(tier, idx, prog=None, plan=None, seed=None):
                 def _hashable(v):
                     try: hash(v); return True
                     except TypeError: return False
-                if rec['bind'] is not None and all(_hashable(v) for v in list(a) + list(k.values())):
+                def _encodable(v):
+                    if kms[0][0] != 'picklep': return True
+                    try: __import__('pickle').dumps(v); return True        # (instances of classes made by exec cannot be pickled by reference)
+                    except Exception: return False
+                if rec['bind'] is not None and all(_hashable(v) and _encodable(v) for v in list(a) + list(k.values())):
                     tags['valid-hashable-call'] += 1
                     dent = rec['keys'][-1] if rec['keys'] else None
                     if 'exc' in rec['keygen'] or (dent is not None and 'exc' in dent):
@@ -368,6 +383,7 @@ def run_program(tier, idx, prog=None, plan=None, seed=None):
                                         (prog['kind'].startswith('partial') and prog['p_kw'] and prog['p_kwname'] in npo_names)))
             for v in viol[nviol0:]:
                 v['sig'] = dict(v['sig'], posonly=bool(npo_names), posonly_name_as_keyword=po_kw)
+                if v['prop'] == 'C09': v['sig']['same_object_pair'] = sameobj
         # ---------------- model lines
         names_sorted = sorted(set(o for o in I.objs if isinstance(o, str)))
         ty = []
@@ -518,6 +534,15 @@ def analyse(prop, progs):
                     ign_names = bool(rec['ign'])   # NULL entries are inserted in *set* iteration order
                     same = act['args'] == m['args'] and act['types'] == m['types'] and sorted(act['kwds']) == sorted(m['kwds']) and (ign_names or act['kwds'] == m['kwds'])
                 if not same: d = dict(what='raw key', km=ent['km'], impl=act, model=m)
+            elif kmk == 'picklep':
+                # real pickle bytes depend on which equal arguments are one object (memo references): compare what they decode to
+                import pickle
+                try: act = pickle.loads(ent['key'])
+                except Exception as e: act = 'UNPICKLABLE:%s' % type(e).__name__
+                exp = rebuild(I, kmo, m)
+                noaddr = lambda o: re.sub(r' at 0x[0-9a-f]+', '', repr(o))      # (an unpickled instance lives at another address)
+                if noaddr(act) != noaddr(exp) and not (bool(rec['ign']) and not kmo.get('flat', True)):
+                    d = dict(what='encoded key', km=ent['km'], impl=repr(act)[:200], model=repr(exp)[:200])
             else:
                 exp = sk.encoder(kmk)(rebuild(I, kmo, m))
                 ign_names = bool(rec['ign'])   # NULL entries are inserted in *set* iteration order
